@@ -86,7 +86,13 @@ int main(int argc, char** argv) {
                         nStores++;
                     } else if (act < 9 || id != 0) {
                         TranspositionTable::TTEntry ent;
-                        tt.probe(u.key, ent);
+                        // one probe in six asks for a key that was never stored but differs from a stored one only where the slot's
+                        // second word keeps its bookkeeping (generation, bits 42..45) or in a single bit: it must miss
+                        U64 pk = u.key;
+                        int nb = r.nextInt(12);
+                        if (nb == 0) pk ^= (U64)(1 + r.nextInt(15)) << 42;
+                        else if (nb == 1) pk ^= 1ULL << r.nextInt(64);
+                        tt.probe(pk, ent);
                         nProbes++;
                         if (ent.getType() != TType::T_EMPTY) {
                             Move mv; ent.getMove(mv);
